@@ -121,6 +121,11 @@ class C01(Base):
         for off in offs:
             for d in docs:
                 yield self.mk(d, "<", ">", Cfg(off=off), "config-oddities")
+        # expiry times at the edges of what chrono can represent, under offsets that push them over
+        for to in gen.LENIENT_TO + ["+262142-12-31 23:59:59", "-262143-01-01 00:00:00", "262142-12-31 00:00:00", "-262142-01-01 00:00:01", "9999-12-31 23:59:59", "0000-01-01 00:00:00"]:
+            for off in ["+00:00", "-05:00", "+09:00", "-23:59", "+23:59", "-0001"]:
+                if "'" not in to:
+                    yield self.mk("<tl to='%s'>x</tl>" % to, "<", ">", Cfg(off=off), "extreme-expiry")
         tiny = ["", "<", ">", "<>", "<a", "a>", "<a>", "</", "</>", "</a>", "<tl>", "<rm>", "<tl", "é", "<é>", "\n", "<\n>", "< >", "<  >", "<tl >", "< tl>"]
         names = ["", " ", "a b", "\u00e9", "tl ", " tl", "/", "/tl", "=", "'", "tl='x'"]
         for nm in names:
@@ -274,6 +279,14 @@ class C02(Base):
             elif i % 3 == 1:
                 src = "".join(("\r\n" if ch == "\n" and rng.random() < 0.5 else ch) for ch in src)
             yield self.mk(src, "<", ">", proto.DEFAULT_CFG, "text-behind-tags")
+        # marker names and expiry values with characters that mean something elsewhere: `#`, `,`, `;`, `\\`, `%`, `*`, a
+        # leading `-`, the other kind of quote
+        odd = ["#123", "a#b", "a,b", "a;b", "C:\\dir\\", "100%", "*", "-x", "a=b", 'say "x"', "@x", "$x", "a\\", "\\"]
+        for i in range(quick(tier, 700, 15000)):
+            g = gen.DocGen(rng, depth=rng.choice([1, 2, 3]), p_unwrap=0.3, p_ready=0.6, p_skip=0.05, max_items=4, names=odd, kinds=("rm", "rm", "tl", "zz"))
+            items = g.doc()
+            tg = tuple(sorted(set(rng.choice(odd) for _ in range(rng.choice([1, 2, 3])))))
+            yield self.mk(gen.render(items, final_nl=rng.random() < 0.8), "<", ">", Cfg(targets=tg), "odd-names")
         # tag names that are proper suffixes / prefixes of each other; delimiters of very different lengths
         for (_, label, src, ds, de, cfgj) in common.affix_docs(rng.randrange(1 << 30), tier):
             yield self.mk(src, ds, de, Cfg.from_json(cfgj), label)
@@ -646,7 +659,8 @@ class C06(Base):
             yield c
 
     def cli_cases(self, rng, n):
-        names = ["a", "b", "vec![]", "", "feature1", "Feature1", "feature", "removal-marker", "[]", "vec!", "+00:00"]
+        names = ["a", "b", "vec![]", "", "feature1", "Feature1", "feature", "removal-marker", "[]", "vec!", "+00:00",
+                 "a,b", "#1234", "a;b", "-x", "--list", "@t", "a=b", "*", "a\\", "%s", "$HOME", "a b", "é,ü"]
         # every name of the pool once as the only flag target and once as the only config-file line
         for f in names:
             others = [x for x in names if x != f]
@@ -902,6 +916,18 @@ class C09(Base):
                         pad = " " if ds.endswith("-") or ds.endswith("*") else ""
                         body = pad + kind + " " + " ".join("%s=%s%s%s" % (n, q, v, q) for n, v in attrs) + pad
                         yield self.mk(body, ds, de, (kind, [(n, v) for n, v in attrs]), "delimiter-in-value", decision={"tag": kind, "ready": ready})
+        # backslashes in quoted values - in front of the closing quote in particular: a backslash is an ordinary character
+        for val in ["C:\\legacy\\", "\\", "a\\", "\\\\", "a\\b", "\\n", "x \\"]:
+            for kind, ready in [("tl", True), ("tl", False), ("rm", True), ("rm", False)]:
+                for q in ("'", '"'):
+                    for order in (0, 1):
+                        condv = (gen.READY_T if ready else gen.PEND_T) if kind == "tl" else ("a" if ready else "b")
+                        cname = "to" if kind == "tl" else "name"
+                        attrs = [("c", val), (cname, condv)]
+                        if order:
+                            attrs.reverse()
+                        body = kind + " " + " ".join("%s=%s%s%s" % (n, q, v, q) for n, v in attrs)
+                        yield self.mk(body, "<", ">", (kind, [(n, v) for n, v in attrs]), "backslash-in-value", decision={"tag": kind, "ready": ready})
         for b in gen.MALFORMED_BODIES:
             for ds, de in [("<", ">"), ("[[", "]]")]:
                 yield self.mk(b, ds, de, None, "malformed")
@@ -991,6 +1017,12 @@ class C10(Base):
         n = quick(tier, 500, 20000)
         for d, ds, de in doc_stream(rng, tier, n, n, n // 4, 0):
             yield self.mk(d, ds, de, label="doc")
+        # hundreds of unclosed opening tags or stray closing tags in front of an element (a file with many plain comments
+        # under delimiters that make a comment a tag): the pairing behind them is as it would be without them
+        for k in (100, 255, 256, 257, 300, 600):
+            for unit in ("<b>t", "</z>", "<b></z>", "<!x>\n"):
+                for tail in ("<a>x</a>y", "<a><c>x</a>y</c>", "<a>x<a>y</a>z</a>"):
+                    yield self.mk(unit * k + tail, label="many-stray")
 
     def spec_reqs(self, case, impl):
         k, v = parse_reply(impl[0])
